@@ -96,7 +96,14 @@ func workerMain(args []string) int {
 	out := fs.String("out", "", "")
 	journal := fs.String("journal", "", "")
 	deadline := fs.Int64("deadline", 0, "unix seconds; 0 = none")
+	skip := fs.String("skip", "", "run indices to skip (they killed an earlier worker)")
 	fs.Parse(args)
+	skipSet := map[int]bool{}
+	for _, x := range strings.Split(*skip, ",") {
+		if n, err := strconv.Atoi(x); err == nil {
+			skipSet[n] = true
+		}
+	}
 	runtime.GOMAXPROCS(1)
 
 	kn := parseKnown(*known)
@@ -131,6 +138,12 @@ func workerMain(args []string) int {
 		if *deadline > 0 && time.Now().Unix() >= *deadline {
 			flush(false, i)
 			return 0
+		}
+		if skipSet[i] {
+			continue
+		}
+		if len(wo.Records)%256 == 255 {
+			flush(false, i)
 		}
 		if jf != nil {
 			fmt.Fprintf(jf, "BEGIN %d\n", i)
@@ -260,8 +273,6 @@ func main() {
 		rc = genMain(os.Args[2:])
 	case "check":
 		rc = checkMain(os.Args[2:])
-	case "nodeworker":
-		rc = nodeWorkerMain(os.Args[2:])
 	case "heapworker":
 		rc = heapWorkerMain(os.Args[2:])
 	case "raceworker":
